@@ -73,13 +73,36 @@ def explore_checked(ses, oid, run, hyps, *, function=None, allowed_exc=(), timeo
 # -------------------------------------------------------------------------------------------------
 def _worker(args):
     prop, tier, seed, modname, fname, case = args
+    t = time.time()
+    budget = int(float(os.environ.get("PYVC_CASE_BUDGET", 1800 if tier == "quick" else 3600)))
+    # A case whose exploration ends with an engine limit (a solver budget exhausted on a pruning query, and whatever follows
+    # from exploring the path that was not pruned) is explored again with another solver seed, while the time spent on the case
+    # is below PYVC_RETRY_WITHIN seconds (200; a case of the unchanged tree takes less than 130 s with every core oversubscribed): z3's non-linear arithmetic varies from run to run, every attempt is a complete exploration
+    # with all its obligations, so any attempt in which every obligation is discharged is a proof. Refutations (failed
+    # obligations) are never retried. The attempts are recorded in the notes of the evidence.
+    attempts = int(os.environ.get("PYVC_CASE_ATTEMPTS", 3))
+    history = []
+    for attempt in range(attempts):
+        if attempt:
+            z3.set_param("smt.random_seed", 17 * attempt)
+            z3.set_param("sat.random_seed", 17 * attempt)
+        sub = _run_case_once(prop, tier, seed, modname, fname, case, max(60, budget - int(time.time() - t)))
+        limits = [o.id for o in sub.obligations if o.status == "engine-limit"]
+        failed = [o.id for o in sub.obligations if o.status == "failed"]
+        history.append({"attempt": attempt + 1, "engine_limits": limits[:5], "seconds": round(time.time() - t, 1)})
+        if not limits or failed or sub.crashed or time.time() - t > float(os.environ.get("PYVC_RETRY_WITHIN", 200)):
+            break
+    if len(history) > 1:
+        sub.notes.append(f"case {case!r}: {len(history)} exploration attempts (solver seeds), earlier ones ended with engine limits: {history}")
+    return sub.export(), time.time() - t
+
+
+def _run_case_once(prop, tier, seed, modname, fname, case, budget):
     import importlib
 
     import signal
 
     sub = Session(prop, tier=tier, seed=seed)
-    t = time.time()
-    budget = int(float(os.environ.get("PYVC_CASE_BUDGET", 900 if tier == "quick" else 3600)))
 
     class _Budget(KeyboardInterrupt):
         pass
@@ -110,7 +133,7 @@ def _worker(args):
                 signal.signal(signal.SIGALRM, old)
         except (ValueError, OSError):
             pass
-    return sub.export(), time.time() - t
+    return sub
 
 
 def run_cases(ses, modname, fname, cases, processes=None):
@@ -121,7 +144,9 @@ def run_cases(ses, modname, fname, cases, processes=None):
         outs = [_worker(a) for a in args]
     else:
         ctx = mp.get_context("fork")
-        with ctx.Pool(processes) as pool:
+        # one fresh process per case: the state of z3 (term numbering, learnt lemmas) at the start of a case does not depend on
+        # which cases the pool happened to schedule on the same worker before
+        with ctx.Pool(processes, maxtasksperchild=1) as pool:
             outs = pool.map(_worker, args, chunksize=1)
     for (exp, dt), c in zip(outs, cases):
         ses.absorb(exp)
@@ -153,7 +178,7 @@ def explore_parallel(ses, modname, fname, payload, processes=None, max_paths=300
     New prefixes are scheduled as soon as a path reports the forks it met."""
     processes = processes or max(1, (os.cpu_count() or 2))
     n_paths = 0
-    budget_s = budget_s or float(os.environ.get("PYVC_UNIT_BUDGET", 900 if ses.tier == "quick" else 3600))
+    budget_s = budget_s or float(os.environ.get("PYVC_UNIT_BUDGET", 1800 if ses.tier == "quick" else 3600))
     t_start = time.time()
     over = None
     if processes <= 1 or os.environ.get("PYVC_SERIAL"):
@@ -212,7 +237,7 @@ def explore_parallel_multi(ses, modname, fname, payloads, processes=None, max_pa
     processes = processes or max(1, (os.cpu_count() or 2))
     if processes <= 1 or os.environ.get("PYVC_SERIAL") or len(payloads) == 1:
         return {p["unit"]: explore_parallel(ses, modname, fname, p, processes, max_paths, budget_s) for p in payloads}
-    budget_s = budget_s or float(os.environ.get("PYVC_UNIT_BUDGET", 900 if ses.tier == "quick" else 3600))
+    budget_s = budget_s or float(os.environ.get("PYVC_UNIT_BUDGET", 1800 if ses.tier == "quick" else 3600))
     t_start = time.time()
     counts = {p["unit"]: 0 for p in payloads}
     over = {}
